@@ -86,6 +86,9 @@ def leg_skeleton(progs, flavour, jobs=8):
     n_ops = 0
 
     def one(p):
+        pre = E.xxh3_oracle_lines(p.ops) if any("xxh3" in o for o in p.ops) else []
+        if pre:
+            p = E.Program(p.name, pre + p.ops, model=p.model, tags=p.tags)
         r = T.run_traced(flavour, p.ops)
         ann = E.annotate(p.ops, r.impl_lines)
         mlines, mevs = model_events(ann)
@@ -96,7 +99,7 @@ def leg_skeleton(progs, flavour, jobs=8):
         for i, op in enumerate(p.ops):
             if i >= len(r.events) or i >= len(mevs):
                 break
-            if op.split(" ")[0] in ENV_OPS:
+            if op.split(" ")[0] in ENV_OPS or op.startswith("oracle "):
                 continue
             n_ops += 1
             real = canon_events(op, r.events[i])
@@ -304,27 +307,41 @@ def leg_fault_injection(cases, flavour, tier, jobs=8):
     injections = 0
     classes = set()
 
+    ALLNAMES = sum((c.split(",") for c in FAULT_CALLS), [])
+    WORKER = {"DRIVE_WORKER": "1"}
+
     def run_case(case):
+        # The setup runs in a process of its own; the victim alone runs under injection, its op loop on
+        # a fresh thread (DRIVE_WORKER): strace keeps the `when=N` counter per thread, so N ranges over
+        # the calls of the operation itself — on the worker thread (sync API, async front half) and on
+        # every pool thread of the async runtimes — and never hits the process start-up.
         out = []
-        ops = case["setup"] + [case["victim"]]
-        base_counts = T.count_syscalls(flavour, ops, sum((c.split(",") for c in FAULT_CALLS), []), by_thread=True)
-        pre_counts = T.count_syscalls(flavour, case["setup"], sum((c.split(",") for c in FAULT_CALLS), []), by_thread=True) if case["setup"] else {}
-        base = T.run_traced(flavour, ops)
-        pre = T.run_traced(flavour, case["setup"]) if case["setup"] else None
+        tmpl = os.path.join(C.scratch_root(), f"flt-tmpl{next(E._counter)}")
+        T.run_traced(flavour, case["setup"], scratch=tmpl)
+
+        def fresh():
+            d = os.path.join(C.scratch_root(), f"flt{next(E._counter)}")
+            shutil.rmtree(d, ignore_errors=True)
+            shutil.copytree(tmpl, d, symlinks=True)
+            return d
+        sc = fresh()
+        base = T.run_traced(flavour, [case["victim"]], scratch=sc, reuse=True, env_extra=WORKER, extra_trace=ALLNAMES)
+        shutil.rmtree(sc, ignore_errors=True)
+        pids = list(base.counts_by_pid)
+        threads = pids[1:] if len(pids) > 1 else pids      # the main thread only starts up and joins
         for cls in FAULT_CALLS:
             names = cls.split(",")
-            tot = sum(base.counts.get(nm, 0) for nm in names)
-            before = sum(pre.counts.get(nm, 0) for nm in names) if pre else 0
-            # the harness' own marker/result writes are counted too; over-approximating is harmless
-            occ = list(range(before + 1, tot + 1))
+            mx = max([sum(base.counts_by_pid[t].get(nm, 0) for nm in names) for t in threads] or [0])
+            occ = list(range(1, mx + 1))
             if tier == "quick" and len(occ) > 3:
                 occ = [occ[0], occ[len(occ) // 2], occ[-1]]
             for n in occ:
                 for en in (ERRNOS if tier == "thorough" else ERRNOS[:2]):
                     if en == "EMFILE" and names[0] not in ("openat",):
                         continue
-                    scratch = os.path.join(C.scratch_root(), f"flt{next(E._counter)}")
-                    r = T.run_traced(flavour, ops, scratch=scratch, inject=f"inject={cls}:error={en}:when={n}")
+                    scratch = fresh()
+                    r = T.run_traced(flavour, [case["victim"]], scratch=scratch, reuse=True, env_extra=WORKER,
+                                     extra_trace=names, inject=f"inject={cls}:error={en}:when={n}")
                     key = case["key"]
                     probe = ["dump c0", "dump c0/tmp", case["victim"]]
                     if key is not None:
@@ -334,11 +351,12 @@ def leg_fault_injection(cases, flavour, tier, jobs=8):
                     r2 = T.run_traced(flavour, probe, scratch=scratch, reuse=True)
                     shutil.rmtree(scratch, ignore_errors=True)
                     out.append((cls, n, en, r, r2, probe))
+        shutil.rmtree(tmpl, ignore_errors=True)
         return case, out
     with ThreadPoolExecutor(max_workers=jobs) as ex:
         allres = list(ex.map(run_case, cases))
     for case, out in allres:
-        vi = len(case["setup"])
+        vi = 0
         for cls, n, en, r, r2, probe in out:
             injected = any(e.startswith("injected") for ev in r.events for e in ev)
             if not injected:
@@ -347,7 +365,7 @@ def leg_fault_injection(cases, flavour, tier, jobs=8):
             where = f"{en} injected into {cls.split(',')[0]} #{n} during `{case['victim'][:50]}`"
             res = toks(r.impl_lines[vi]) if vi < len(r.impl_lines) else ["missing"]
             sig = {"victim": case["victim"].split(" ")[0], "call": cls.split(",")[0], "errno": en}
-            fs_ = trace_monitor(r, ops_of(case), where + ": ")
+            fs_ = trace_monitor(r, [case["victim"]], where + ": ")
             if res[0] in ("panic", "hang", "missing") or r.killed:
                 fs_.append(Failure("panic_or_hang_on_fault", n, f"{where}: {res[0]}", sig=sig))
             il = r2.impl_lines
@@ -355,6 +373,13 @@ def leg_fault_injection(cases, flavour, tier, jobs=8):
                 fs_.append(Failure("unusable_after_fault", n, f"{where}: inspection stopped", sig=sig))
             else:
                 fs_ += content_valid_monitor(il[0], where)
+                # C14: the operation has returned and its writer is gone: no temp file of it remains
+                # (unless the injected failure was the deletion itself)
+                if case["kind"] == "write" and not cls.startswith("unlink"):
+                    tfiles, _, _ = parse_dump(il[1])
+                    if tfiles:
+                        fs_.append(Failure("temp_left_after_fault", n, f"{where}: result {' '.join(res[:3])}; left in tmp: {sorted(tfiles)[:2]}",
+                                           sig=dict(sig, api=case["victim"].split(" ")[1])))
                 retry = toks(il[2])
                 if retry[0] != "ok" and case.get("retry_ok", True):
                     fs_.append(Failure("retry_fails", n, f"{where}: the same call without the fault -> {' '.join(retry[:3])}", sig=sig))
@@ -391,8 +416,25 @@ def leg_fault_injection(cases, flavour, tier, jobs=8):
             classes.add((case["victim"].split(" ")[0], cls.split(",")[0], en, res[0] if res[0] != "err" else " ".join(res[:3])))
             if len(samples) < 4:
                 samples.append({"victim": case["victim"][:80], "inject": f"{cls.split(',')[0]}#{n}:{en}", "result": " ".join(res[:3])})
+    by_call = {}
+    for v, c, en, rs in classes:
+        by_call[f"{v}/{c}"] = by_call.get(f"{v}/{c}", 0) + 1
     return {"failures": failures, "disagreements": [], "evaluations": injections, "distinct_nontrivial": len(classes),
-            "samples": samples, "injections": injections}
+            "samples": samples, "injections": injections, "fault_classes": by_call}
+
+
+def fault_cases_writes(r):
+    """Write-only cases for C14 (temp files after failed commits), all entry points x flavours."""
+    d = b"fault data " * 20
+    key = b"fk"
+    base = [w_oneshot("s", "sha256", b"other", b"other value")]
+    others = {b"other": b"other value"}
+    cases = []
+    for fl in "sa":
+        for algo in ("sha256", "sha1"):
+            cases.append({"setup": base, "victim": w_oneshot(fl, algo, key, d), "key": key, "data": d, "algo": algo, "kind": "write", "others": others})
+        cases.append({"setup": base, "victim": f"write_hash {fl} c0 sha512 {hx(d)}", "key": None, "data": d, "algo": "sha512", "kind": "write", "others": others})
+    return cases
 
 
 def fault_cases(r):
@@ -444,8 +486,10 @@ def leg_concurrent(r, rounds, flavours, procs=4, ops_per_proc=40):
                     ops.append(w_oneshot(fl, a, k, v))
                 elif x < 0.5:
                     ops.append(f"write_hash {fl} c0 {a} {hx(v)}")
-                elif x < 0.6:
+                elif x < 0.55:
                     ops.append(f"remove {fl} c0 {hx(k)}")
+                elif x < 0.6:
+                    ops.append(f"remove_hash {fl} c0 {sri_tok(a, v)}")
                 elif x < 0.8:
                     ops.append(f"read {fl} c0 {hx(k)}")
                 elif x < 0.9:
